@@ -10,7 +10,7 @@ CLAIM = dict(cat="proof", design="§3 C17, Appendix A.6",
         "(Flocq): whenever the binary64 filter with the error bound written in the header decides, its answer is the exact sign, it never answers 0, hence the adaptive predicates return the exact real sign. "
         "Tie: the real functions (with Boost.Multiprecision) and the extracted model are compared on random, exactly degenerate (lattice) and 1..1000-ulp perturbed inputs (exact sign, adaptive sign, whether the filter decided, "
         "filter answer), plus an independent big-integer oracle on every real output. Rescaling tie: the real NewVoronoiGrid is built (C15 harness) on boxes whose sides are / are not exactly representable fractions and every internal coordinate handed to the predicates (generators, wall copies, all-encompassing tetrahedron) must lie in [1,2).",
-   note="Trusted: Coq kernel, standard real/classical axioms and the PrimFloat/Uint63 specification axioms reported by Print Assumptions (through Flocq/Interval); extraction + OCaml driver for the correspondence. "
+   note="Call sites: every orient3d/insphere call made by the Voronoi sources during real constructions is interposed (macro over the included sources) and its arguments must lie in [1,2). Trusted: Coq kernel, standard real/classical axioms and the PrimFloat/Uint63 specification axioms reported by Print Assumptions (through Flocq/Interval); extraction + OCaml driver for the correspondence. "
         "Assumes the ISO build the project uses (no -ffast-math/FMA contraction: the proved expression is the one in the header, operation by operation); inputs in [1,2) are a caller contract.",
    technique="Coq proof (integer determinants by ring/bounds, Flocq running-error analysis for the filter) + differential correspondence")
 ONE = 0x3FF << 52
